@@ -258,7 +258,7 @@ impl Check for C17 {
                         deleted += 1;
                     }
                     let names: Vec<String> = ep.restamped.iter().map(|r| r.0.clone()).filter(|n| !n.starts_with('.')).collect();
-                    if let Err(e) = sc_model::check_maintenance(&ep.before, &ep.after(), &names, cap, ep.now, gran) {
+                    if let Err(e) = sc_model::check_maintenance(&ep.before, &ep.after(), &names, cap, ep.now, gran, kn.strict_order()) {
                         let dot_present = ep.before_all.len() != ep.before.len();
                         fail(&mut out, "victims", format!("{} (capacity {}, {} key-named files, {} other files): {}", d, cap, ep.before.len(), ep.before_all.len() - ep.before.len(), e), if dot_present { "dotfile" } else { "keys" });
                     }
